@@ -40,6 +40,20 @@ def corpus(seed, n):
     cases.append(("into_amb", None,
                   "#[derive(Educe)]\n#[educe(Into(u8), Into(u16), Into(u32), Into(i64))]\nstruct S { a: u8, b: u8, "
                   "c: u16, d: u16, e: u32, f: u32, g: i64, h: i64 }\n"))
+    # families whose members spell a field type identically although it depends on a parameter in one item only: any
+    # state kept between expansions (caches keyed by spelling, counters) shows when the order of expansion changes
+    many = "Debug, Clone, PartialEq, Hash, Default"
+    fam = [
+        ("famA", "#[derive(Educe)]\n#[educe(%s)]\nstruct Page<Item> { items: Vec<Item>, n: [u8; 4] }\n" % many),
+        ("famB", "#[derive(Educe)]\n#[educe(%s)]\nstruct Cart<K> { items: Vec<Item>, key: K, n: [u8; 4] }\n" % many),
+        ("famC", "#[derive(Educe)]\n#[educe(%s)]\nstruct Buf<const N: usize> { data: [u8; N], tag: Option<Item> }\n" % many),
+        ("famD", "#[derive(Educe)]\n#[educe(%s)]\nstruct Fixed<T> { data: [u8; N], tag: Option<T>, v: Vec<Item> }\n" % many),
+        ("famE", "#[derive(Educe)]\n#[educe(%s)]\nenum Either<Item, N> { L(Item, [u8; 4]), R { n: N, t: Option<Item> } }\n" % many),
+        ("famF", "#[derive(Educe)]\n#[educe(Debug)]\nstruct M1<T> { #[educe(Debug(method(m)))] a: T, b: Item }\n"),
+        ("famG", "#[derive(Educe)]\n#[educe(Debug)]\nstruct M2<Item> { #[educe(Debug(method(m)))] a: Item, b: T }\n"),
+    ]
+    for cid, text in fam:
+        cases.append((cid, None, text))
     return cases
 
 
@@ -53,13 +67,19 @@ def main(tier, seed, scale=1.0):
     os.makedirs(os.path.join(WORK, "tmp"), exist_ok=True)
     feed = [(cid, text) for cid, td, text in cases]
 
-    def one(_):
-        return B._run_chunk(exe, feed, repeat, False, 600)
+    def one(p):
+        # every process expands the corpus in its own order: what was expanded before must not matter
+        order = list(feed)
+        if p % 2 == 1:
+            rng_for(seed, PROP, "order", p).shuffle(order)
+        elif p % 4 == 2:
+            order.reverse()
+        return B._run_chunk(exe, order, repeat, False, 600)
 
     with cf.ThreadPoolExecutor(max_workers=min(NCPU, procs)) as ex:
         runs = list(ex.map(one, range(procs)))
     chk.rule = ("random derive requests biased towards several Into targets and many traits, each "
-                "expanded %d times in each of %d fresh processes; non-trivial = accepted request whose "
+                "expanded %d times in each of %d fresh processes (each process in its own order of expansion); non-trivial = accepted request whose "
                 "expansion has >= 2 impl items; distinct by source text" % (repeat, procs))
     texts = {cid: text for cid, td, text in cases}
     distinct_outputs = 0
